@@ -196,6 +196,17 @@ def gen_step(rng, pool):
         tgt = rng.choice([32, 16, 8])
         dt = {32: torch.float32, 16: torch.float16, 8: torch.bfloat16}[tgt]
         return Step("to", [tgt], [v], lambda x, dt=dt: x.to(dt), "rescale")
+    if choice in ("mul", "rmul", "div") and rng.random() < 0.35:
+        # a tensor factor: 0-dimensional (a scalar for quanto) or a one-element tensor with dimensions (not a scalar)
+        kv = float(rng.choice(SCALARS))
+        kshape = rng.choice([[], [], [1], [1, 1], [1] * max(r, 1)])
+        kt = torch.full(kshape, kv, dtype=v.dtype)
+        rel = "rescale" if kshape == [] else "fallback"
+        if choice == "mul":
+            return Step("mul", [], [v, kt], lambda x, kk: x * kk, rel, oracle="ref", note="mul-tensor-factor")
+        if choice == "rmul":
+            return Step("mul", [], [kt, v], lambda kk, x: kk * x, rel, oracle="ref", note="mul-tensor-factor")
+        return Step("div", [], [v, kt], lambda x, kk: x / kk, rel, oracle="ref", note="div-tensor-factor")
     if choice in ("mul", "rmul", "div"):
         k = rng.choice(SCALARS)
         if choice == "mul":
